@@ -109,6 +109,7 @@ void WorkerPool<T, Neighbors, N>::run(
         // Prioritize picking up a local task before going to
         // the MPMC queue, to keep things in this thread for
         // as long as possible.
+        LIBFIVE_VERIF_POINT(verif::SITE_POOL_LOOP);
         Task task;
         if (local.size())
         {
@@ -259,8 +260,9 @@ void WorkerPool<T, Neighbors, N>::run(
 
     // If we've broken out of the loop, then we should set the done flag
     // so that other worker threads also terminate.
-    LIBFIVE_VERIF_POINT(verif::SITE_POOL_EXIT, settings.cancel.load() ? 1 : 0, done.load() ? 1 : 0);
+    LIBFIVE_VERIF_ONLY(const bool verif_done_seen = done.load();)
     done.store(true);
+    LIBFIVE_VERIF_POINT(verif::SITE_POOL_EXIT, settings.cancel.load() ? 1 : 0, verif_done_seen ? 1 : 0);
 
     {   // Release the pooled objects to the root
         std::lock_guard<std::mutex> lock(root_lock);
